@@ -206,6 +206,12 @@ class chunks(object):
         decChunkMin = int(np.floor((dec - self.decBounds[0]) *
                                    float(self.nDec) /
                                    (self.decBounds[self.nDec]-self.decBounds[0])))
+        if dec == self.decBounds[self.nDec]:
+            #
+            # A point on the upper boundary (Dec = +90) belongs to the
+            # last slice.
+            #
+            decChunkMin = self.nDec - 1
         decChunkMax = decChunkMin
         if decChunkMin < 0 or decChunkMin > self.nDec - 1:
             raise PydlutilsException("decChunkMin out of range in chunks.getbounds().")
@@ -269,6 +275,8 @@ class chunks(object):
         decChunk = int(np.floor((dec - self.decBounds[0]) *
                                 float(self.nDec) /
                                 (self.decBounds[self.nDec]-self.decBounds[0])))
+        if dec == self.decBounds[self.nDec]:
+            decChunk = self.nDec - 1
         #
         # Find ra chunk
         #
